@@ -23,7 +23,7 @@ ASSUMPTIONS = ["strings contain no ';' and do not end in a backslash (the langua
                "dict literals have distinct keys",
                "when the reference evaluation raises inside a built-in the implementation must raise too (class not compared)",
                "'a variable evaluates to its most recent assignment' is also held against the built-ins: a call must leave the values it "
-               "is given as they were (compared at the registry before and after every call), except categorize / tag / split_url_events, "
+               "is given as they were (compared at the registry before and after every call) and must not assign to any variable of the program (the namespace it is handed is compared by identity before and after), except categorize / tag / split_url_events, "
                "which annotate the caller's events in place, and period_union, which clears the data of the input events it returns "
                "unmerged - behaviour of the unchanged tree that C12's quantifier acknowledges ('programs that annotate, clear or re-time events in place')"]
 
@@ -95,6 +95,10 @@ def run_case(case, ctx):
         for (fname, before, after) in reg.arg_effects[:1]:
             # a variable bound to that value no longer evaluates to what was assigned to it
             viols.append(("built-in-changed-the-values-it-was-given", f"{fname}: before={canon(before)[:250]} after={canon(after)[:250]} :: text={text!r:.400}"))
+        for (fname, changed, how) in reg.namespace_effects[:1]:
+            # only statements assign: a variable (the query's own NAME / STARTTIME / ENDTIME included) evaluates to its most
+            # recent assignment, and a name the program never assigned is unbound
+            viols.append(("built-in-assigned-to-a-variable", f"{fname} re-bound / bound {changed}: {how} :: text={text!r:.400}"))
         ctx.count("programs_evaluated")
         ctx.count("registry_calls_recorded", len(trace))
         if ref[0] == "value":
